@@ -31,7 +31,7 @@ var shard, nshards = 0, 1
 // mine reports whether the current case id belongs to this shard; generators always run (the PRNG
 // stream is the same in every shard), only the evaluation is divided.
 func mine() bool {
-	if id < 26 { // the constants and the hand-written witness cases: shard 0 (first replays)
+	if id < 33 { // the constants and the hand-written witness cases: shard 0 (first replays)
 		if shard == 0 {
 			return true
 		}
@@ -510,7 +510,58 @@ func genFile(r *hx.Rand) {
 
 // filterQuery builds the query of a filter kind: u / nu (exact `.unit` term, plain / negated), name,
 // re-MODE / nre-MODE (regexp `.unit` term built from a literal), anything else: `*`.
+//
+// comb (set by the generators around a case) combines that `.unit` term U with a whole-result term W:
+// <op>-<w>-<order>, op = or | nor | and | nand, w = name (.name:Keep, true for results named Keep),
+// goosT (goos:linux, true: every file starts with `goos: linux`), goosF (goos:plan9, false),
+// order = wu | uw. The per-measurement meaning is the boolean combination.
+var comb = "none"
+
+// effComb is the combination that actually applies to a filter kind (none for `*` and `.name`).
+func effComb(fkind string) string {
+	if fkind == "name" || fkind == "all" || len(strings.Split(comb, "-")) != 3 {
+		return "none"
+	}
+	return comb
+}
+
+var combs = []string{"or-name-wu", "or-name-uw", "or-goosT-wu", "or-goosT-uw", "or-goosF-wu", "or-goosF-uw", "nor-name-wu", "nor-name-uw",
+	"nor-goosT-uw", "nor-goosF-wu", "and-name-wu", "and-name-uw", "and-goosF-wu", "and-goosF-uw", "and-goosT-uw", "nand-name-wu", "nand-goosF-uw"}
+
+// withComb runs a case generator with a random combination, 1 time in 3.
+func withComb(r *hx.Rand, f func()) {
+	if r.Chance(1, 3) {
+		comb = hx.Pick(r, combs)
+	}
+	f()
+	comb = "none"
+}
+
 func filterQuery(fkind, pat string) (query string, tag string) {
+	defer func() {
+		parts := strings.Split(comb, "-")
+		if len(parts) != 3 || query == "*" || fkind == "name" {
+			return
+		}
+		w := map[string]string{"name": ".name:Keep", "goosT": "goos:linux", "goosF": "goos:plan9"}[parts[1]]
+		a, b := w, query
+		if parts[2] == "uw" {
+			a, b = query, w
+		}
+		op := " OR "
+		if parts[0] == "and" || parts[0] == "nand" {
+			op = " AND "
+		}
+		query = "(" + a + op + b + ")"
+		if parts[0] == "nor" || parts[0] == "nand" {
+			query = "-" + query
+		}
+		if tag == "" {
+			tag = "comb"
+		} else {
+			tag += "+comb"
+		}
+	}()
 	switch fkind {
 	case "u":
 		query = ".unit:" + strconv.Quote(pat)
@@ -575,7 +626,7 @@ func histCase(files [][]histLine, fkind, pat string) {
 		}
 		fenc = append(fenc, strings.Join(lenc, ";"))
 	}
-	head := fmt.Sprintf("case %d kind=hist files=%s fk=%s pat=%s", id, strings.Join(fenc, "|"), fkind, hx.HexS(pat))
+	head := fmt.Sprintf("case %d kind=hist files=%s fk=%s pat=%s comb=%s", id, strings.Join(fenc, "|"), fkind, hx.HexS(pat), effComb(fkind))
 	defer func() {
 		if e := recover(); e != nil {
 			hx.Printf("%s ivals=- tag=crash\n", head)
@@ -607,6 +658,7 @@ func histCase(files [][]histLine, fkind, pat string) {
 	curLen := 0
 	for fi, f := range files {
 		var text bytes.Buffer
+		text.WriteString("goos: linux\n")
 		for _, l := range f {
 			text.WriteString("Benchmark" + l.name + " 1")
 			for _, m := range l.meas {
@@ -978,6 +1030,7 @@ func keepCase(lines []histLine, fkind, pat string, conc bool) {
 	}
 	var lenc []string
 	var text bytes.Buffer
+	text.WriteString("goos: linux\n")
 	for _, l := range lines {
 		var ms []string
 		text.WriteString("Benchmark" + l.name + " 1")
@@ -992,7 +1045,7 @@ func keepCase(lines []histLine, fkind, pat string, conc bool) {
 	if conc {
 		c = 1
 	}
-	head := fmt.Sprintf("case %d kind=keep files=%s fk=%s pat=%s conc=%d", id, strings.Join(lenc, ";"), fkind, hx.HexS(pat), c)
+	head := fmt.Sprintf("case %d kind=keep files=%s fk=%s pat=%s conc=%d comb=%s", id, strings.Join(lenc, ";"), fkind, hx.HexS(pat), c, effComb(fkind))
 	defer func() {
 		if e := recover(); e != nil {
 			hx.Printf("%s ivals=- tag=crash\n", head)
@@ -1246,6 +1299,18 @@ func main() {
 		keepCase(keepLines, w[0], w[1], false)
 	}
 	keepCase(keepLines, "u", "ns/op", true)
+	// seed C04-U: OR of a `.unit` term with a whole-result term that is true
+	orLines := []histLine{
+		{"Keep", []meas{m("100", 100, "ns/op"), m("5", 5, "widgets/op"), m("2", 2, "MB/s")}},
+		{"Skip", []meas{m("7", 7, "widgets/op"), m("200", 200, "ns/op"), m("3", 3, "sec/op")}}}
+	for _, w := range [][3]string{{"or-name-wu", "u", "ns/op"}, {"or-goosT-wu", "u", "MB/s"}, {"nor-name-uw", "re-prefix", "sec"},
+		{"or-name-uw", "u", "sec/op"}, {"and-goosF-wu", "u", "ns/op"}, {"or-goosF-uw", "u", "B/s"}} {
+		comb = w[0]
+		keepCase(orLines, w[1], w[2], false)
+	}
+	comb = "or-name-wu"
+	histCase([][]histLine{orLines}, "u", "ns/op")
+	comb = "none"
 	// seed C04-S: exactly 32 / 64 measurements
 	w32 := histLine{name: "Keep"}
 	for i := 0; i < 32; i++ {
@@ -1315,13 +1380,13 @@ func main() {
 	// Matches of one Filter kept across results
 	nk := hx.N(3000, 60000)
 	for i := 0; i < nk; i++ {
-		genKeep(r)
+		withComb(r, func() { genKeep(r) })
 	}
 
 	// results with exactly 32·k measurements and their neighbours
 	nw := hx.N(1200, 24000)
 	for i := 0; i < nw; i++ {
-		genWide(r, wideNs[i%len(wideNs)])
+		withComb(r, func() { genWide(r, wideNs[i%len(wideNs)]) })
 	}
 
 	// concurrent first use of fresh units (Tidy and separate Readers)
@@ -1339,6 +1404,6 @@ func main() {
 	// histories on one Reader with in-place filtering and Reset
 	nh := hx.N(6000, 120000)
 	for i := 0; i < nh; i++ {
-		genHist(r)
+		withComb(r, func() { genHist(r) })
 	}
 }
